@@ -1022,7 +1022,7 @@ func runFailover(seed int64, idx int) *scen.Outcome {
 				}
 				continue
 			}
-			if wait < dialTO && atUpdate(fc.end) {
+			if atUpdate(fc.end) {
 				// released and then found the set replaced in the same virtual instant: not judged
 				sameInstant++
 				continue
